@@ -105,10 +105,10 @@ CHECKS = {
   'note': 'string length bounded (stated per harness); rejection of ill-formed UTF-8 is cbor-smol\'s from_utf8 (A8); A12 for the window variant.',
  },
  'C14': {
-  'engine': 'K', 'design_ref': 'DESIGN.md §5 C14',
-  'technique': 'Kani contract harnesses: TryFrom for known parameters over all i32; the two filtering visit_seq loops driven through the real Deserialize impls by a mock SeqAccess with symbolic entries',
-  'text': 'Known-parameter conversion complete over all algorithms and type strings up to 12 bytes. Filtering loops: for every list of up to 3 (thorough 6 / 5) symbolic entries the result is the first two known entries in order, the unknown flag is exact, decoding never fails. Bounded in list length.',
-  'note': 'element decoders are the real derived ones; cbor-smol sequence framing not in the loop (A8).',
+  'engine': 'V+K', 'design_ref': 'DESIGN.md §5 C14, §10.4e',
+  'technique': 'Verus proof of both filtering visit_seq loops (verbatim, loop invariants injected) for lists of any length against a left-to-right specification; Kani proofs of the two element classifiers and mock-SeqAccess harnesses on the real monomorphised loops',
+  'text': 'Unbounded in the list length: the result is exactly the first two known entries in the platform\'s order, the unknown-format flag is exact, the whole list is read, and the only way to fail is a failure of the underlying sequence. Which entries are "known" is decided by the two classifier functions, proved by Kani over all i32 algorithms / type strings up to 12 bytes and all format strings up to 20 bytes.',
+  'note': 'serde SeqAccess modelled by a ghost sequence; heapless Vec::push contract assumed (validated by dep_k_*); element decoding (String<32> capacity etc.) is A4/A8.',
  },
  'C15': {
   'engine': 'D+K', 'design_ref': 'DESIGN.md §5 C15',
